@@ -28,8 +28,8 @@ T = {
     "C06": ("4.C06", "exhaustive exploration over shape x zero-column masks x duplicate-column positions x entry classes",
             "All tall/square/wide shapes <=4 (5), every zero-column bit mask and every duplicated column position; clause oracle (orthonormal Q, triangular R, A=QR).",
             "oracle arithmetic from the product table"),
-    "C07": ("4.C07", "model checking of the pivot loop: inputs constructed to force each of the m! row-interchange sequences (m<=4 quick, <=5 thorough), exact dyadic arithmetic, both output modes, plus singular/tie/generic cells",
-            "Every interchange sequence the pivot search can take for m<=5 is executed on the real code; the model's predicted (L,U,P) is replayed bit-for-bit; clauses PA=LU / A=LU, unit-lower L with |l|<=1, upper U, loud-or-correct on singular input, input untouched.",
+    "C07": ("4.C07", "model checking of the pivot loop: inputs constructed to force each of the m! row-interchange sequences (m<=4 quick, m<=7 thorough), exact dyadic arithmetic incl. power-of-two scalings, both output modes, plus singular/tie/generic cells",
+            "Every interchange sequence the pivot search can take for m<=7 (thorough; m<=4 quick) is executed on the real code; the model's predicted (L,U,P) is replayed bit-for-bit; clauses PA=LU / A=LU, unit-lower L with |l|<=1, upper U, loud-or-correct on singular input, input untouched.",
             "model M.perm (swap simulation), exact dyadic letters; oracle product from the Hamilton table"),
     "C08": ("4.C08", "exhaustive exploration over spectra compositions x sign/zero patterns x eigenbases, small-integer Hermitian matrices by support mask, scalings, rejection cells",
             "All multiplicity patterns for n<=4 (5) incl. repeated/zero eigenvalues, diagonal and already-tridiagonal inputs.",
@@ -46,10 +46,10 @@ T = {
     "C12": ("4.C12", "exhaustive exploration of the parameter grid (shape, rank, R, oversample, n_iter/n_passes) x enumerated global seeds",
             "The global RNG is the only scheduler; seeds 0..S-1 are enumerated, every grid cell executed.",
             "oracle: svals via complex adjoint"),
-    "C13": ("4.C13", "model checking over enumerated seeds with the test sketch regenerated by the harness: sound per-run bound on the true residual whenever converged=True",
+    "C13": ("4.C13", "model checking over enumerated seeds with the test sketch regenerated by the harness: sound per-run bound on the true residual whenever converged=True (n <= sketch size), enumerated-trace bound with measured slack for n > sketch size",
             "Each (solver, config, seed) run is a deterministic trace; converged => exact bound via sigma_min of the regenerated test sketch; history tail recomputed.",
             "oracle: pinv via complex adjoint; numpy MT19937 stream order"),
-    "C14": ("4.C14", "explicit-state BFS over call histories (depth<=3, pool of 4 problems) of each solver class/config with canonicalised __dict__ as state; fresh-object differential oracle; argument-hash table; two import styles",
+    "C14": ("4.C14", "explicit-state search over call histories (depth<=3, pool of 4-6 problems incl. a singular system and tight-budget cells) of each solver class/config with canonicalised __dict__ as state; references from fresh objects in pristine forked processes; in-place aliasing step; argument-hash / repeatability battery; two import styles",
             "All sequences of <=3 calls per cell are executed on live objects; each call's result must equal a fresh object's bitwise.",
             "differential oracle (the implementation itself on a fresh object)"),
     "C15": ("4.C15", "exhaustive exploration on exact letters: definitions with exact rational expected values, all pairs/triples of a pool for the inequalities, every ord spelling",
